@@ -71,6 +71,10 @@ func init() {
 				k = big.NewInt(0)
 			}
 
+			if c.Shard%2 == 1 && g >= 5 && g%5 != 4 {
+				k = mon.BigH(batch.Conc[g%5].K) // shared scalar objects in every second cold process
+			}
+
 			batch.Conc = append(batch.Conc, c01Case{E: mon.MkElemCase(pv, rp), K: fmt.Sprintf("%x", k)})
 		}
 
@@ -197,6 +201,11 @@ func c01Generate(c *mon.Ctx) {
 		for g := 0; g < 8; g++ {
 			pv := gen.Fresh(hr)
 			k := gen.Draw(hr, n)
+			if b%2 == 1 && g >= 2 {
+				// every second batch: the goroutines multiply their own points by two scalar objects they all share
+				k = gen.V{X: mon.BigH(batch.Conc[g%2].K), Class: batch.Conc[g%2].KClass}
+			}
+
 			batch.Conc = append(batch.Conc, c01Case{E: mon.MkElemCase(pv, gen.DrawRepr(hr, false)), K: fmt.Sprintf("%x", k.X), KClass: k.Class})
 		}
 
@@ -246,10 +255,22 @@ func c01RunConcurrent(c *mon.Ctx, cs *c01Case) {
 		pan  any
 	}
 
+	// jobs whose scalar is the same value share ONE Scalar object: the scalar is an argument, which the API only reads
+	shared := map[string]*secp256k1.Scalar{}
 	jobs := make([]*job, len(cs.Conc))
+
 	for i := range cs.Conc {
 		sub := &cs.Conc[i]
-		jobs[i] = &job{e: sub.E.Build(), s: mon.Scal(mon.BigH(sub.K)), want: oracle.Mul(mon.BigH(sub.K), sub.E.P.Pt())}
+
+		sc, ok := shared[sub.K]
+		if !ok {
+			sc = mon.Scal(mon.BigH(sub.K))
+			shared[sub.K] = sc
+		} else {
+			c.Count("concurrent-jobs-sharing-a-scalar-object")
+		}
+
+		jobs[i] = &job{e: sub.E.Build(), s: sc, want: oracle.Mul(mon.BigH(sub.K), sub.E.P.Pt())}
 	}
 
 	c.Count("concurrent-batches")
@@ -289,7 +310,7 @@ func c01RunConcurrent(c *mon.Ctx, cs *c01Case) {
 		}
 
 		if !bytes.Equal(j.got, oracle.EncC(j.want)) {
-			c.Fail(fmt.Sprintf("[k]P wrong when %d goroutines multiply simultaneously on objects they own (job %d): Encode=%s want %s", len(jobs), i, mon.H(j.got), mon.H(oracle.EncC(j.want))), "multiply-concurrent-value", nil)
+			c.Fail(fmt.Sprintf("[k]P wrong when %d goroutines multiply simultaneously on their own points (job %d): Encode=%s want %s", len(jobs), i, mon.H(j.got), mon.H(oracle.EncC(j.want))), "multiply-concurrent-value", nil)
 			return
 		}
 	}
